@@ -44,6 +44,7 @@ fn main() {
         let kind = t.s();
         let res = match kind {
             "prog" => prog::run(&mut t),
+            "reinit" => prog::reinit(&mut t),
             "dcs" => misc::dcs(&mut t),
             "orient" => misc::orient(&mut t),
             "angle" => misc::angle(&mut t),
